@@ -228,6 +228,18 @@ func RunC03(env *Env, rep *Report) {
 			}
 		}
 	}
+	// long tails of body-less cases after a default body (chunk id gaps)
+	for _, ctx := range contexts {
+		for _, first := range []string{"ifbreak", "cmd", "iflabelcmd"} {
+			for n := 2; n <= 4; n++ {
+				sh := []swEntry{{Body: first}, {Default: true, Body: "cmd"}}
+				for i := 0; i < n; i++ {
+					sh = append(sh, swEntry{Body: "empty"})
+				}
+				cases = append(cases, c03Case(sh, ctx))
+			}
+		}
+	}
 	rep.Technique = "symbolic execution of the real switch parser and emitter (go/ssa) + SMT-discharged bisimulation against the reference switch semantics"
 	rep.Explanation = "Bounded symbolic verification, not a proof. Every case list up to the stated length (each entry case or default - at most one default -, with every body kind of the bound) in every listed context is compiled by symbolic execution of the real code with symbolic names and symbolic case constants (pairwise distinct integers); the emitted switch/case/goto code is shown bisimilar to the reference (matching case's body; body-less entries share the next body; trailing body-less entries select nothing; default iff no case matches; no fall-through; break leaves the switch) for every value of the switched var and every flag state, by SMT queries; loop contexts cover re-entry."
 	rep.Bounds = map[string]interface{}{"max_case_list_length": maxLen, "bodies": bodies, "contexts": contexts, "cases": len(cases)}
